@@ -1,6 +1,7 @@
 package main
 
 import (
+	"os"
 	"fmt"
 	"go/token"
 	"go/types"
@@ -114,7 +115,11 @@ func (fc *fnCtx) staticCall(cs *callSite, callee *ssa.Function, bindings []*val)
 		return fc.pureCall(callee, cs.args, fc.curH, fc.curR)
 	}
 	if g.lite {
-		if ev := fc.eventKeyOfCall(cs, callee.Name()); ev != "" {
+		ev := fc.eventKeyOfCall(cs, callee.Name())
+		if ev == "" && callee.Signature.Recv() == nil && callee.Parent() == nil && callee.Pkg != nil && fc.topHasOrderEvent(callee.Pkg.Pkg.Name()+"."+callee.Name()) {
+			ev = callee.Pkg.Pkg.Name() + "." + callee.Name() // package-level function named by a rule: `store.VerifyInclusion`
+		}
+		if ev != "" {
 			if callee.Blocks == nil || !touchesLocks(callee, 6, map[*ssa.Function]bool{}) || fc.topHasOrderEvent(ev) {
 				res := fc.havocCall(cs, false)
 				fc.event(ev, res, cs.pos)
@@ -1450,11 +1455,47 @@ func (fc *fnCtx) topOrders() []orderRule {
 
 func (fc *fnCtx) topHasOrderEvent(ev string) bool {
 	for _, o := range fc.topOrders() {
-		if o.before == ev || o.after == ev {
+		if o.after == ev {
 			return true
+		}
+		for _, a := range o.alts() {
+			if a == ev {
+				return true
+			}
 		}
 	}
 	return false
+}
+
+// alts: the alternatives of the `before` side (`A | B | else(cond)`): the rule holds when ANY of them happened.
+func (o orderRule) alts() []string {
+	var r []string
+	for _, a := range strings.Split(o.before, " | ") {
+		a = strings.TrimSpace(a)
+		if strings.HasPrefix(a, "then(") || strings.HasPrefix(a, "else(") {
+			a = strings.Join(strings.Fields(a), "") // branch events are named by the condition's source text without blanks
+		}
+		r = append(r, a)
+	}
+	return r
+}
+
+// happened: the SMT condition "one of the alternatives of o happened" in ghost row gl.
+func (o orderRule) happened(gl string) string {
+	var cs []string
+	for _, a := range o.alts() {
+		cs = append(cs, fmt.Sprintf("(= %s 1)", sel(gl, evRef, evIndex(a))))
+	}
+	if len(cs) == 1 {
+		return cs[0]
+	}
+	return "(or " + strings.Join(cs, " ") + ")"
+}
+
+// setFlag records that event ev happened where okc holds.
+func (fc *fnCtx) setFlag(ev, okc string) {
+	cur := sel(fc.curH["GL"], evRef, evIndex(ev))
+	fc.curH["GL"] = fc.g.bind("GL", heapSort("Int"), sto(fc.curH["GL"], evRef, evIndex(ev), fmt.Sprintf("(ite %s 1 %s)", okc, cur)))
 }
 
 // event records the execution of ev (res = results of the call, nil for stores) and checks the order rules.
@@ -1464,14 +1505,21 @@ func (fc *fnCtx) event(ev string, res *val, pos token.Pos) {
 		return // rules speak about the events of the function under contract itself (incl. its function literals)
 	}
 	top := fc.topCtx()
+	if os.Getenv("GOVC_EVENTS") != "" {
+		fmt.Fprintf(os.Stderr, "event %s at %s\n", ev, g.w.posString(pos))
+	}
 	for _, o := range fc.topOrders() {
 		if o.after == ev {
 			g.oblige(obligation{name: fmt.Sprintf("order:%s:%s", fnKeyQ(top.fn), o.label), kind: "order", guard: fc.curR,
-				cond: fmt.Sprintf("(= %s 1)", sel(fc.curH["GL"], evRef, evIndex(o.before))), pos: g.w.posString(pos)})
+				cond: o.happened(fc.curH["GL"]), pos: g.w.posString(pos)})
 		}
 	}
 	for _, o := range fc.topOrders() {
-		if o.before == ev {
+		isAlt := false
+		for _, a := range o.alts() {
+			isAlt = isAlt || a == ev
+		}
+		if isAlt {
 			okc := "true"
 			if res != nil {
 				// the last result of type error must be nil
@@ -1487,10 +1535,18 @@ func (fc *fnCtx) event(ev string, res *val, pos token.Pos) {
 				}
 				if c := find(res); c != "" {
 					okc = c
+				} else {
+					// no error result: a boolean verdict (last result) must be true
+					last := res
+					if res.k == kTuple && len(res.elems) > 0 {
+						last = res.elems[len(res.elems)-1]
+					}
+					if last.k == kBool {
+						okc = last.t[0]
+					}
 				}
 			}
-			cur := sel(fc.curH["GL"], evRef, evIndex(ev))
-			fc.curH["GL"] = g.bind("GL", heapSort("Int"), sto(fc.curH["GL"], evRef, evIndex(ev), fmt.Sprintf("(ite %s 1 %s)", okc, cur)))
+			fc.setFlag(ev, okc)
 			break
 		}
 	}
